@@ -56,7 +56,7 @@ fn reference_cell(op: usize, req: usize, inst: Option<usize>) -> bool {
 /// The same field as lossless trees of different provenance: parsed; normalised by wrap_and_sort; rebuilt relation by
 /// relation through the lossy form (From<lossy::Relation>); rebuilt with Relation::new; parsed and then edited with
 /// set_version to the constraint it already has.  And as lossy values: parsed; converted from the lossless tree.
-fn ll_variants(text: &str) -> Vec<(&'static str, ll::Relations)> {
+pub fn ll_variants(text: &str) -> Vec<(&'static str, ll::Relations)> {
     let parsed = ll::Relations::from_str(text).unwrap();
     let mut out = vec![("parsed", ll::Relations::from_str(text).unwrap())];
     out.push(("normalised by wrap_and_sort", ll::Relations::from_str(text).unwrap().wrap_and_sort()));
